@@ -89,13 +89,16 @@ fn describe_img(bytes: &[u8]) -> (usize, String) {
     (units.len(), items.join(" "))
 }
 
-/// first call of a history: the model formats its own blank image and is compared with a fresh real format
+/// first call of a history: the model formats its own blank image and is compared with a fresh real format.
+/// On the fresh real volume the variant bit of the model is probed (is the volume label addressable as a file?);
+/// that is also a direct oracle of C05: a name that was never stored must not be fetchable.
 fn format_tie(drv: &mut Drv, w: &World, vd: &mut Verdicts) {
-    let fresh = guarded(|| make_volume(&w.cfg).map(|mut d| d.get_img().to_bytes()));
+    let fresh = guarded(|| make_volume(&w.cfg).map(|mut d| { let label_is_file = d.get("VERIF").is_ok(); (d.get_img().to_bytes(), label_is_file) }));
     match fresh {
-        Ok(Ok(bytes)) => {
+        Ok(Ok((bytes, label_is_file))) => {
+            vd.v(Focus::C05, !label_is_file, "label-is-not-a-file", "get(\"VERIF\") on a freshly formatted volume labelled VERIF returns a file: the label entry is addressable as a file (get/delete/rename/lock reach it, put of that name is a duplicate)", &["format VERIF".to_string()]);
             let (n, img) = describe_img(&bytes);
-            tie(drv, w, vd, &format!("format {} {} {} ok {}", n, hx(b"VERIF"), stamp(), img), None, "format");
+            tie(drv, w, vd, &format!("format {} {} {} {} ok {}", n, hx(b"VERIF"), stamp(), if label_is_file { 1 } else { 0 }, img), None, "format");
         }
         _ => vd.out.count("fsfat-format-unavailable"),
     }
@@ -133,7 +136,12 @@ fn cat_answer(rows: &[String]) -> String {
 pub fn after_step(drv: &mut Drv, w: &mut World, vd: &mut Verdicts, desc: &str) {
     if std::env::var("A2V_NO_FSFAT").is_ok() || w.cfg.container != "img" { return; }
     let first = drv.ask("fsf ready") != "yes";
-    if first { format_tie(drv, w, vd); }
+    if first {
+        format_tie(drv, w, vd);
+        // the label as a path (read-only probe of both sides; the real volume may by now hold a file of that name)
+        let res = w.get("verif");
+        tie(drv, w, vd, &format!("get {}", hx(b"verif")), Some(get_answer(&res)), desc);
+    }
     let op = w.last_op.clone();
     if let Some(op) = &op {
         if let Some(req) = request(op) {
